@@ -43,6 +43,10 @@ RULE = ("case = a real fit() run (state kind, n, h[, a], data with repeats and p
         "start / while the batch is processed / batch end / epoch end of a chosen epoch; the first j = 1..15 documented parameters given positionally; "
         "integer options (epochs, pos/neg batch size, k, starting_epoch, state sizes) as Python / numpy / 0-d array / 0-d tensor integers and progbar / "
         "time / gpu as bool / int / numpy.bool_ / 0-d array / 0-d tensor objects (stream `aseed` of the case); "
+        "final pass: calls that leave k / lr to their documented defaults (k = 1, lr = 1e-3, DensityMatrix 1); keywords naming no parameter and "
+        "input_bases= on a positive state; optimizers WITH STATE (SGD momentum / weight decay / nesterov, Adam, AdamW, RMSprop, Adagrad) on data whose "
+        "batches have an exactly zero phase / whole gradient (all-Z bases, Z rows then rotated rows, identical rows with k = 0), judged by replay with "
+        "torch's own optimizer; "
         "bernoulli draws scripted (faithful u<p or fair coins) and recorded) observed through compute_batch_gradients and rbm_am.gibbs_steps wrapped on the "
         "instance; every batch of every epoch is one observation: negative batch, chain start, probabilities presented, chain end states, .grad per "
         "parameter, lr, parameters before/after; per call: events, scheduler step count and learning rate left in the optimizer; non-trivial iff the run "
